@@ -1075,7 +1075,7 @@ def gen_tables(srcdir):
             out.append('Definition %s_%s : Z := %s.' % (f.stem, name, zlit(v)))
             names.append('%s_%s' % (f.stem, name))
             allconsts.setdefault(f.stem, {})[name] = (v, ty)
-        for m in re.finditer(r'\b(?:const|static)\s+([A-Z_][A-Z0-9_]*)\s*:\s*(\[[^=]*\])\s*=\s*\[', src):
+        for m in re.finditer(r'\b(?:const|static)\s+([A-Z_][A-Z0-9_]*)\s*:\s*(\[[^=]*\]|[A-Z][A-Za-z0-9]*)\s*=\s*\[', src):
             name = m.group(1)
             # find the end of the array literal
             i = m.end() - 1
